@@ -245,7 +245,7 @@ class Inliner:
                     return h, None
         return None, None
 
-    def _bind(self, helper, call, self_expr, caller_names):
+    def _bind(self, helper, call, self_expr, caller_names, pure_chains=False):
         """(prelude statements, Name->expr mapping, rename map) or None"""
         a = helper.node.args
         if a.vararg or a.kwarg or a.posonlyargs and False:
@@ -292,7 +292,14 @@ class Inliner:
                 rename[n] = f"{n}__h{self.counter}"
         for p, v in bound.items():
             uses = sum(1 for n in ast.walk(helper.node) if isinstance(n, ast.Name) and n.id == p and isinstance(n.ctx, ast.Load))
-            if p in stores or not _simple_arg(v):
+            chain_ok = False
+            if pure_chains and p not in stores:
+                # a pure attribute read (`term.data`) may be written where the parameter stood
+                e_ = v
+                while isinstance(e_, ast.Attribute):
+                    e_ = e_.value
+                chain_ok = isinstance(e_, ast.Name) and isinstance(v, ast.Attribute)
+            if p in stores or not (_simple_arg(v) or chain_ok):
                 # bind through a temporary (keeps single evaluation)
                 nm = p if p not in caller_names else None
                 if nm is None:
@@ -425,8 +432,10 @@ class Inliner:
                 if isinstance(n, ast.Call) and id(n) not in blocked:
                     h, self_expr = self._helper_for(fn, n)
                     if h is not None and self._eligible(h, fn):
+                        self._expr_context = False
                         return hdr, n, h, self_expr
-        # calls inside comprehensions / short-circuits: only expression helpers (single return) can be inlined there
+        # calls inside comprehensions / short-circuits: only expression helpers (single return) can be inlined there, and only by
+        # substitution in place (nothing can be hoisted in front of the statement: the arguments may use comprehension variables)
         for hdr in self._header_exprs(s):
             for n in ast.walk(hdr):
                 if isinstance(n, ast.Call):
@@ -434,6 +443,7 @@ class Inliner:
                     if h is not None and self._eligible(h, fn):
                         body = self._body(h)
                         if len(body) == 1 and isinstance(body[0], ast.Return):
+                            self._expr_context = True
                             return hdr, n, h, self_expr
         return None
 
@@ -523,10 +533,13 @@ class Inliner:
         if found is None:
             return None
         hdr, call, h, self_expr = found
-        b = self._bind(h, call, self_expr, caller_names)
+        expr_ctx = getattr(self, "_expr_context", False)
+        b = self._bind(h, call, self_expr, caller_names, pure_chains=expr_ctx)
         if b is None:
             return None
         prelude, mapping, rename = b
+        if expr_ctx and prelude:
+            return None   # an argument would have to be bound in front of the statement: not possible inside a comprehension
         body = [copy.deepcopy(x) for x in self._body(h)]
         sub = _Subst(mapping, rename)
         body = [sub.visit(x) for x in body]
@@ -902,11 +915,62 @@ def flatten_new_bases(prog, inv):
                         c.methods[plain] = f
                 for a, v in base.class_attrs.items():
                     c.class_attrs.setdefault(a, v)
+                # `super().m(args)` statements in the subclass that reach the new base's m: the base's body, with its parameters
+                # bound to the arguments (only for bodies without return values / nested defs; `self` is the same object)
+                for mname, m in list(c.methods.items()):
+                    _inline_super_calls(m, base)
+                # the base is folded in: the class no longer depends on it
+                c.node.bases = [x for x in c.node.bases if x is not b]
+                if hasattr(c, "bases") and isinstance(c.bases, list) and d in c.bases:
+                    c.bases = [x for x in c.bases if x != d]
                 done.append((c.qual, base.qual))
                 changed = True
         if not changed:
             break
     return done
+
+
+def _inline_super_calls(m, base):
+    """replace expression statements `super().name(a, b)` in method m by the body of base.name (a new base class)"""
+    def walk(stmts):
+        out = []
+        for st in stmts:
+            for fld in ("body", "orelse", "finalbody"):
+                sub = getattr(st, fld, None)
+                if isinstance(sub, list) and sub and isinstance(sub[0], ast.stmt) and not isinstance(st, (ast.FunctionDef, ast.ClassDef)):
+                    setattr(st, fld, walk(sub))
+            v = st.value if isinstance(st, ast.Expr) else None
+            if isinstance(v, ast.Call) and isinstance(v.func, ast.Attribute) and isinstance(v.func.value, ast.Call) \
+                    and dotted(v.func.value.func) == "super" and not v.func.value.args:
+                bm = base.methods.get(v.func.attr)
+                if bm is not None and not v.keywords and not any(isinstance(a, ast.Starred) for a in v.args):
+                    params = [a.arg for a in bm.node.args.posonlyargs + bm.node.args.args]
+                    body = [x for x in bm.node.body if not (isinstance(x, ast.Expr) and isinstance(x.value, ast.Constant) and isinstance(x.value.value, str))]
+                    simple = all(isinstance(x, (ast.Assign, ast.AugAssign, ast.Expr, ast.Pass, ast.If)) for x in body) and \
+                        not any(isinstance(n, (ast.Return, ast.Yield, ast.FunctionDef, ast.Lambda)) for x in body for n in ast.walk(x)) \
+                        and not any(isinstance(n, ast.Call) and dotted(n.func) == "super" for x in body for n in ast.walk(x))
+                    self_name = m.params[0] if m.params else "self"
+                    if simple and params and len(v.args) == len(params) - 1 - len(bm.node.args.defaults or []) + 0 or \
+                            (simple and params and len(params) - 1 - len(bm.node.args.defaults) <= len(v.args) <= len(params) - 1):
+                        mapping = {params[0]: ast.Name(id=self_name, ctx=ast.Load())}
+                        for p_, a_ in zip(params[1:], v.args):
+                            mapping[p_] = a_
+                        defaults = dict(zip(params[len(params) - len(bm.node.args.defaults):], bm.node.args.defaults))
+                        for p_ in params[1:]:
+                            if p_ not in mapping and p_ in defaults:
+                                mapping[p_] = defaults[p_]
+                        if all(p_ in mapping for p_ in params) and all(_simple_arg(a_) for a_ in mapping.values()):
+                            sub = _Subst(mapping, {})
+                            new = [sub.visit(copy.deepcopy(x)) for x in body] or [ast.Pass()]
+                            for x in new:
+                                ast.copy_location(x, st)
+                                ast.fix_missing_locations(x)
+                            out.extend(new)
+                            continue
+            out.append(st)
+        return out
+
+    m.node.body = walk(m.node.body)
 
 
 def normalise_expressions(prog):
@@ -964,6 +1028,14 @@ def normalise_expressions(prog):
                     for t, v in zip(tg, vs):
                         out.append(ast.copy_location(ast.Assign(targets=[t], value=v), st))
                     continue
+            # `return (not C) and E`  ->  `if C: return False` + `return E`   (`not C` is a bool, so the conjunction is False or E)
+            if isinstance(st, ast.Return) and isinstance(st.value, ast.BoolOp) and isinstance(st.value.op, ast.And) and len(st.value.values) >= 2 \
+                    and all(isinstance(v, ast.UnaryOp) and isinstance(v.op, ast.Not) for v in st.value.values[:-1]):
+                for v in st.value.values[:-1]:
+                    guard = ast.If(test=v.operand, body=[ast.Return(value=ast.Constant(value=False))], orelse=[])
+                    out.append(ast.copy_location(guard, st))
+                out.append(ast.copy_location(ast.Return(value=st.value.values[-1]), st))
+                continue
             out.append(st)
         return out
 
